@@ -108,8 +108,38 @@ def payload(kind):
     return _CACHE[kind]
 
 
+_FILES = {}
+
+
+def _real_file(kind):
+    """the image as a REAL file (the tool is given paths; real file objects buffer and have descriptors, BytesIO does not):
+    written once per process below /dev/shm, removed at exit"""
+    import atexit
+    import os
+    import shutil
+    import tempfile
+    if kind not in _FILES:
+        d = tempfile.mkdtemp(prefix="mcv-c11-", dir="/dev/shm" if os.path.isdir("/dev/shm") else None)
+        atexit.register(shutil.rmtree, d, True)
+        if kind == "cdda_file":
+            tracks = [{"number": 1, "title": "ONE", "indices": [(1, 0)]}, {"number": 2, "title": "TWO", "indices": [(1, 3)]},
+                      {"number": 3, "title": "THREE", "indices": [(1, 5)]}]
+            with open(os.path.join(d, "x.bin"), "wb") as f:
+                f.write(Q.bin_bytes(Q.SECTOR * 8 + 6))
+            with open(os.path.join(d, "x.cue"), "w") as f:
+                f.write(Q.cue_text("x.bin", tracks))
+            _FILES[kind] = os.path.join(d, "x.cue")
+        else:
+            with open(os.path.join(d, "image.img"), "wb") as f:
+                f.write(payload(kind[:-5]))
+            _FILES[kind] = os.path.join(d, "image.img")
+    return _FILES[kind]
+
+
 def open_fresh(kind):
-    if kind == "cdda":
+    if kind.endswith("_file"):
+        img = tree.open_image(_real_file(kind))
+    elif kind == "cdda":
         from smpl_extract.cuesheet import parse_cue_sheet
         from smpl_extract.cdda.image import CompactDiskAudioImageAdapter
         tracks = [{"number": 1, "title": "ONE", "indices": [(1, 0)]}, {"number": 2, "title": "TWO", "indices": [(1, 3)]},
@@ -334,6 +364,19 @@ def configs(quick):
         P(A1, ("read", 2), ("read", 4096), ("read", 4096), ("read", 4096)),
         P(A2, ("read", S + 1), ("seek", 3), ("read", 1), ("read", 4096))]})
     T1, T2, T3 = ("ONE",), ("TWO",), ("THREE",)
+    # the same images as REAL files (buffered file objects with descriptors): reads of mixed sizes and seeks that stay within a
+    # few KiB of one another on two / three streams
+    out.append({"name": "cdda_file:3x2", "kind": "cdda_file", "parts": [
+        P(T1, ("read", 4096), ("read", 2352 + 1)), P(T2, ("read", 1), ("read", 4096)), P(T3, ("seek", 2352), ("read", 4096))]})
+    out.append({"name": "cdda_file:near-seeks", "kind": "cdda_file", "parts": [
+        P(T1, ("read", 100), ("seek", 50), ("read", 3000), ("read", 100)), P(T2, ("read", 1), ("seek", 10), ("read", 500), ("read", 4096))]})
+    out.append({"name": "cdda_file:near-seeks3", "kind": "cdda_file", "parts": [
+        P(T1, ("read", 700), ("seek", 3), ("read", 700)), P(T2, ("seek", 4000), ("read", 1000), ("read", 1)), P(T3, ("read", 10), ("read", 3000))]})
+    out.append({"name": "akai_file:2x4", "kind": "akai_file", "parts": [
+        P(A1, ("read", 2), ("read", 4096), ("seek", 100), ("read", 700)),
+        P(AB, ("read", 300), ("seek", 3), ("read", 1), ("read", 4096))]})
+    out.append({"name": "roland_file:3x2", "kind": "roland_file", "parts": [
+        P(R0, ("seek", 2), ("read", 700)), P(R1, ("read", 2), ("read", 4096)), P(R2, ("read", 1), ("read", 100))]})
     out.append({"name": "cdda:3x2", "kind": "cdda", "parts": [
         P(T1, ("read", 4096), ("read", 2352 + 1)), P(T2, ("read", 1), ("read", 4096)), P(T3, ("seek", 2352), ("read", 4096))]})
     # read-to-end requests (read(-1) / read(None)) issued after another stream has moved the shared handle
@@ -451,7 +494,7 @@ class Check(CheckBase):
     title = "Sample streams sharing one image file handle do not disturb one another"
     rule = ("per configuration (AKAI raw and inside MODE1/2352: two files of one partition, one fragmented, one file of a "
             "second partition, an L/R pair through the transcoder (also on an image file that ends inside the right half), the raw-sector image with one wiped sync pattern inside the first file, a three-sector pair with a contiguous left and a fragmented right half, a dual-mono pair whose two directory entries name ONE chain, lazy directory listings; Roland: forward + reverse-mode "
-            "sample + listing of another performance, a shared sample with a leading-cluster offset, two samples living in one fragmented chain, two reverse-mode samples and a reverse-mode L/R pair, four pairs in which the left half's start point equals the address of the right half's first cluster; CDDA: three tracks; two streams of ONE sample obtained by asking the element twice -- Roland forward windows inside / equal to / one word longer than their file, a reverse-mode sample, the sample an incomplete Roland image ends in (an element that hands out the same object again has one stream: nothing to compare)): ALL interleavings of the participants' call programs "
+            "sample + listing of another performance, a shared sample with a leading-cluster offset, two samples living in one fragmented chain, two reverse-mode samples and a reverse-mode L/R pair, four pairs in which the left half's start point equals the address of the right half's first cluster; CDDA: three tracks; the CDDA, AKAI and Roland images again as REAL files (buffered file objects; reads and seeks that stay within a few KiB of one another); two streams of ONE sample obtained by asking the element twice -- Roland forward windows inside / equal to / one word longer than their file, a reverse-mode sample, the sample an incomplete Roland image ends in (an element that hands out the same object again has one stream: nothing to compare)): ALL interleavings of the participants' call programs "
             "(block reads of 1, 2, 4096, sector-1, sector+1 bytes and of 6146..30000 bytes over files of five sectors / four clusters, sector-aligned reads of a contiguous file that end "
             "exactly on a sector boundary, read-to-end requests, absolute seeks, ls of unrealised directories, transcoder "
             "steps) on one fresh image object per schedule; thorough adds 3x3-step programs over all 25 block-size pairs. "
